@@ -161,6 +161,18 @@ def _worker(seeds):
     return [observe(s) for s in seeds]
 
 
+def pred_complex_leftovers(scn, info):
+    """run_model after a successful complex-step check raises UFuncTypeError in Subjac._apply_fwd_input (a sub-jacobian value
+    left complex) under Newton with DirectSolver(assemble_jac=False); models with a BroydenSolver are NOT matched (that
+    class was repaired: C31-broyden-complex-leftovers)"""
+    obs = str(info.get('observed') or '')
+    md = scn.get('model') or {}
+    broyden = any((sv.get('nl') or {}).get('name') == 'broyden' for sv in (md.get('solvers') or {}).values())
+    newton_direct = any((sv.get('nl') or {}).get('name') == 'newton' and (sv.get('ln') or {}).get('name') == 'direct'
+                        and not (sv.get('ln') or {}).get('opts', {}).get('assemble_jac', True) for sv in (md.get('solvers') or {}).values())
+    return "Cannot cast ufunc 'add' output from dtype('complex128') to dtype('float64')" in obs and newton_direct and not broyden
+
+
 def pred_fd_implicit_stale_residuals(scn, info):
     """A finite-difference partial of an IMPLICIT component is (r(x+h) - r0)/h with r0 = the content of the residual vector
     at linearization time, which is stale after run_model (solve_nonlinear does not evaluate residuals); a call that
@@ -179,7 +191,8 @@ def run(ctx):
     quick = ctx.tier == 'quick'
     n = 90 if quick else 1200
     base = 11000027 * (1 + ctx.seed % 1000)
-    ctx.register_predicates({'C31-fd-partial-of-implicit-component-stale-residual-baseline': pred_fd_implicit_stale_residuals})
+    ctx.register_predicates({'C31-fd-partial-of-implicit-component-stale-residual-baseline': pred_fd_implicit_stale_residuals,
+                             'C31-subjac-complex-leftover-after-cs-check': pred_complex_leftovers})
     res = [r for rs in pmap(_worker, [c for c in split(list(range(base, base + n)), 48) if c]) for r in rs]
     for r in res:
         if 'exc' in r:
